@@ -139,10 +139,21 @@ def run_records(path):
                 skipped += 1
                 continue
             n += 1
-            sent = bytes.fromhex(rec["sent_hex"])
-            fileb = bytes.fromhex(rec["file_hex"])
-            errs = compare_file(sent, rec["ts_uid"], fileb, rec["sop_class"], rec["sop_instance"],
-                                rec.get("sq_tags"))
+            if rec.get("kind") == "stream-vs-file":
+                # C33: reference = body of the file the SCU was given, other = bytes it transmitted
+                ref = bytes.fromhex(rec["ref_file_hex"])
+                other = bytes.fromhex(rec["stream_hex"])
+                f, e, _ = pp.parse_file(ref)
+                if f is None or e or f["ts_uid"] != rec["ts_uid"]:
+                    errs = [("harness", "reference file unusable: %s" % (e[:2],))]
+                else:
+                    errs = compare_streams(ref[f["meta_end"]:], other, rec["ts_uid"], rec.get("sq_tags"))
+                rec["sent_hex"], rec["file_hex"] = rec["ref_file_hex"], rec["stream_hex"]
+            else:
+                sent = bytes.fromhex(rec["sent_hex"])
+                fileb = bytes.fromhex(rec["file_hex"])
+                errs = compare_file(sent, rec["ts_uid"], fileb, rec["sop_class"], rec["sop_instance"],
+                                    rec.get("sq_tags"))
             for kind, text in errs:
                 key = "%s|oparse|%s|ts=%s|mode=%s" % (rec.get("prop", "C32"), kind, rec["ts"], rec["mode"])
                 if key not in out:
